@@ -40,12 +40,21 @@ func (m MessageServerKeyExchange) Type() Type {
 func (m *MessageServerKeyExchange) Marshal() ([]byte, error) { //nolint:cyclop
 	var out []byte
 	if m.IdentityHint != nil {
+		if len(m.IdentityHint) > 0xffff {
+			return nil, dtlserrors.ErrLengthMismatch
+		}
 		out = append([]byte{0x00, 0x00}, m.IdentityHint...)
 		binary.BigEndian.PutUint16(out, uint16(len(out)-2)) //nolint:gosec //G115
 	}
 
 	if m.EllipticCurveType == 0 || len(m.PublicKey) == 0 {
 		return out, nil
+	}
+	if len(m.PublicKey) > 0xff {
+		return nil, dtlserrors.ErrPublicKeyTooLong
+	}
+	if len(m.Signature) > 0xffff {
+		return nil, dtlserrors.ErrLengthMismatch
 	}
 	out = append(out, byte(m.EllipticCurveType), 0x00, 0x00)
 	binary.BigEndian.PutUint16(out[len(out)-2:], uint16(m.NamedCurve))
